@@ -53,6 +53,27 @@ def mergedMetrics : Nat → World → Nat → List Nat
 
 def showNats (l : List Nat) : String := ".".intercalate (l.map toString)
 
+/-- class names of the exceptions the loop treats specially ↔ model class tokens -/
+def clsOfName (n : String) : Nat :=
+  if n = "concurrent.CancelledError" then cfCancelled
+  else if n = "asyncio.CancelledError" then aioCancelled
+  else if n = "TimeoutError" then timeoutError
+  else if n = "concurrent.InvalidStateError" then cfInvalidState
+  else if n = "asyncio.InvalidStateError" then aioInvalidState
+  else 1
+
+def nameOfCls (orig : String) (c : Nat) : String :=
+  if c = aioCancelled then "asyncio.CancelledError"
+  else if c = aioInvalidState then "asyncio.InvalidStateError"
+  else orig
+
+/-- the outcome token `e:<Class>:<message>:<same>` / `r:<value>:<same>` after the model's call -/
+def showOutcome (dout : String) (o : Outcome) : String :=
+  match o, dout.splitOn ":" with
+  | .raise e, "e" :: cls :: msg :: same :: _ =>
+    s!"e:{nameOfCls cls e.cls}:{msg}:{if e.obj = 0 then (if same = "-" then "-" else "0") else same}"
+  | _, _ => dout
+
 def runCase (line : String) : String :=
   let toks := Driver.words line
   let deco := field toks "deco" "asyn"
@@ -80,7 +101,9 @@ def runCase (line : String) : String :=
     s!"-|-|-|-|-|-|{bits}{if form = "fn" then "" else bits}"
   else
   let ran := dbind ≠ "-"
-  let outcome : Outcome := if dout.startsWith "r:" then .ret 1 else .raise 1
+  let outcome : Outcome := match dout.splitOn ":" with
+    | "e" :: cls :: _ => .raise { cls := clsOfName cls, obj := 1 }
+    | _ => .ret 1
   let f : Fn := { id := 7, name := 98, doc := if field toks "doc" "1" = "1" then some 1 else none,
                   run := if ran then scripted outcome leak rec_ else unbound outcome }
   let c0 : Ctx := if root = "1" then { state := some 0, scope := some 0 } else {}
@@ -116,6 +139,6 @@ def runCase (line : String) : String :=
       | some nd => showNats (metricsOf nd.recs)
       | none => "-"
   let records := if root = "1" then s!"A={aRepr}~R={rRepr}~M={showNats (mergedMetrics w.nodes.length w 0)}~own={own}" else "-"
-  s!"{dout}|{dbind}|{seen}|{after}|{where_}|{records}|111"
+  s!"{showOutcome dout r.1}|{dbind}|{seen}|{after}|{where_}|{records}|111"
 
 end Driver.Wrap
